@@ -66,6 +66,44 @@ class Engine:
         return names == {"outvec", "errvec"}
 
 
+def chunk_of(ch):
+    """(base slice term, constant upper bound of the length or None) of a chunk term: `base[..k]`, or `base.get(..K).unwrap_or(base)`
+    (the first K bytes when there are that many, else everything -- at most K either way)"""
+    ch = M.noref(ch)
+    if ch[0] == "call" and "index" in ch[1].lower() and len(ch[2]) == 2 and M.noref(ch[2][1])[0] == "agg" and M.noref(ch[2][1])[1][1] == "std::ops::RangeTo":
+        return M.noref(ch[2][0]), upper_const(M.noref(ch[2][1])[2][0])
+    if ch[0] == "phi" and len(ch[1]) == 2:
+        alts = [M.noref(a_) for a_ in ch[1]]
+        pay = [a_ for a_ in alts if a_[0] == "field" and a_[2] == "0" and a_[1][0] == "downcast" and a_[1][2] == "Some"]
+        rest = [a_ for a_ in alts if a_ not in pay]
+        if len(pay) == 1 and len(rest) == 1:
+            g = M.noref(pay[0][1][1])
+            if g[0] == "call" and g[1].endswith("<impl [T]>::get") and len(g[2]) == 2 and M.noref(g[2][0]) == rest[0]:
+                rng = M.noref(g[2][1])
+                if rng[0] == "agg" and rng[1][1] == "std::ops::RangeTo":
+                    return rest[0], upper_const(rng[2][0])
+    if ch[0] == "call" and ch[1] == "std::option::Option::<T>::unwrap_or" and len(ch[2]) == 2:
+        g, d = M.noref(ch[2][0]), M.noref(ch[2][1])
+        if g[0] == "call" and g[1].endswith("<impl [T]>::get") and M.noref(g[2][0]) == d and M.noref(g[2][1])[0] == "agg" and M.noref(g[2][1])[1][1] == "std::ops::RangeTo":
+            return d, upper_const(M.noref(g[2][1])[2][0])
+    return None, None
+
+
+def stdin_releases(ri, T, selfp):
+    """the sites at which read_into closes the child's stdin: `self.stdin.take()` (result not kept) or `self.stdin = None`, the field
+    reached directly or through a reference bound to it.  Returns ([(bb, kind, call-term-or-None)], other stores to the field)"""
+    from common import stores_to_field
+    NONE = ("agg", ("adt", "std::option::Option", "None"), ())
+    rel = [(bb, "take", t) for bb, t in ri.calls() if M.callee_str(t["f"]) == "std::option::Option::<T>::take" and M.noref(T.operand(t["args"][0])) == ("field", selfp, "stdin")]
+    other = []
+    for (b, si, s) in stores_to_field(ri, "stdin", "communicate::raw::RawCommunicator"):
+        if si != "term" and s["k"] == "assign" and T.rvalue(s["r"]) == NONE:
+            rel.append((b, "store-none", None))
+        else:
+            other.append((b, si))
+    return rel, other
+
+
 def eval_const(t):
     """fold a constant expression term (BitOr/BitAnd/Add of constants, through casts)"""
     while t[0] == "cast":
